@@ -211,7 +211,15 @@ impl RoutingTable {
         match self.entry(Key::from(peer)) {
             KBucketEntry::Occupied(entry) => {
                 entry.push_addresses(addresses);
-                entry.connection = connection;
+
+                // Hearing about a peer again (e.g., in a `FIND_NODE` reply) says nothing about an
+                // open connection to it: only a disconnect may take `Connected` away, otherwise a
+                // connected peer becomes evictable from its k-bucket.
+                if !(entry.connection == ConnectionType::Connected
+                    && connection == ConnectionType::NotConnected)
+                {
+                    entry.connection = connection;
+                }
             }
             mut entry @ KBucketEntry::Vacant(_) => {
                 entry.insert(KademliaPeer::new(peer, addresses, connection));
